@@ -305,12 +305,14 @@ class Interp:
         self.res = Result()
         self.seen = []
         self.aba = False
-        self.dir = scratch_dir("vf_c11h_")  # ONE directory per history: same input and output paths every run
+        self.dir = None  # ONE directory per history (created at the first run): same input and output paths every run
 
     def run(self, i):
         i = i % len(self.P)
         name, text, ext, opts, extra = self.P[i]
         ref = self.R[str(i)]["0"]
+        if self.dir is None:
+            self.dir = scratch_dir("vf_c11h_")
         # a successful run overwrites whatever an earlier run left at the output path (often a longer
         # file); before a run that is expected to fail the path is cleared (C12 owns that rule)
         got = run_inproc(text, ext, opts, extra, keep_dir=self.dir, keep_output=bool(ref["ok"]))
@@ -331,7 +333,9 @@ class Interp:
         self.seen.append(i)
 
     def finish(self):
-        shutil.rmtree(self.dir, ignore_errors=True)
+        if self.dir is not None:
+            shutil.rmtree(self.dir, ignore_errors=True)
+            self.dir = None
         self.res.nontrivial = self.aba
         self.res.label("A-B-A" if self.aba else "no-repeat", f"len={min(len(self.seen), 12)}")
         return self.res
@@ -370,8 +374,9 @@ def machine(tier):
                 self.it.run(i)
 
         def teardown(self):
+            result = self.it.finish()  # always: removes the history's directory
             if type(self).sink is not None and self.ops:
-                type(self).sink(dict(part="history", ops=list(self.ops)), self.it.finish())
+                type(self).sink(dict(part="history", ops=list(self.ops)), result)
 
     return Runs
 
